@@ -40,5 +40,5 @@ package connected
 //@     invariant sub.Edges == nil || (allocatedArr(sub.Edges) && !loopold(allocatedArrId(now(arr(sub.Edges)))))
 //@     invariant forall k int :: 0 <= k && k < len(sub.Edges) ==> (exists i int :: 0 <= i && i < b && sub.Edges[k] == g.Edges[i] && es[g.Edges[i]])
 //@     invariant forall i int :: 0 <= i && i < b && es[g.Edges[i]] ==> (exists k int :: 0 <= k && k < len(sub.Edges) && sub.Edges[k] == g.Edges[i])
-//@     invariant forall k int :: 0 <= k && k + 1 < len(sub.Edges) ==>
-//@       (exists i int, j int :: 0 <= i && i < j && j < b && sub.Edges[k] == g.Edges[i] && sub.Edges[k+1] == g.Edges[j])
+//@     invariant forall k int, m int :: 0 <= k && m == k + 1 && m < len(sub.Edges) ==>
+//@       (exists i int, j int :: 0 <= i && i < j && j < b && sub.Edges[k] == g.Edges[i] && sub.Edges[m] == g.Edges[j])
